@@ -216,7 +216,10 @@ def make_indicator(b: Built, ind):
             return getattr(ps, cls)()
         return getattr(ps, cls)(list_of_tasks=[T(i) for i in ind["tasks"]])
     if cls == "IndicatorFromMathExpression":
-        return ps.IndicatorFromMathExpression(name=ind["name"], expression=term(b, ind["expr"]))
+        kw = {}
+        if ind.get("bounds"):
+            kw["bounds"] = tuple(ind["bounds"])
+        return ps.IndicatorFromMathExpression(name=ind["name"], expression=term(b, ind["expr"]), **kw)
     if cls in ("IndicatorMaxBufferLevel", "IndicatorMinBufferLevel"):
         return getattr(ps, cls)(buffer=b.buffers[ind["buffer"] - 1])
     return None  # created by an objective
